@@ -55,7 +55,20 @@ OBS = ["full_text", "units_all", "units_partial", "unit_text", "unit_images", "u
        "image_bytes", "image_meta", "tables_all", "table_get", "table_dim", "metadata", "to_json", "serialize_nobin", "json_dumps"]
 
 
+META_PARTS = ("docProps/core.xml", "docProps/app.xml", "meta.xml", "content.opf")
+
+
 def _mutate(rng, data: bytes) -> tuple[bytes, list]:
+    if blockdev.is_zip(data) and rng.random() < 0.45:
+        # damage inside the metadata part: absent / empty properties are where defaults (clock, host, locale) leak in
+        names = blockdev.zip_members(data)
+        idx = [i for i, n in enumerate(names) if n.endswith(META_PARTS)]
+        if idx:
+            k = rng.choice(idx)
+            ed = rng.choice([["xml_empty", rng.randrange(1 << 20)], ["xml_empty", rng.randrange(1 << 20)], ["xml_del", rng.randrange(1 << 20)],
+                             ["del_attr", rng.randrange(1 << 20)], ["attr_mangle", rng.randrange(1 << 20), rng.randrange(1 << 10), "letter"]])
+            ops = [["zip", k, ["edit", ed]]]
+            return blockdev.apply_ops(data, ops, corpus.splice_sources()), ops
     ops = blockdev.gen_ops(rng, data, corpus.splice_sources(), s2_bias=0.7)
     return blockdev.apply_ops(data, ops, corpus.splice_sources()), ops
 
